@@ -78,6 +78,9 @@ def oracle(case, obs):
     tr = obs["trace"]
     if obs["raised"].startswith("escape"):
         return f"unexpected exception escaped do(): {obs['raised']}"
+    why = sc.clock_oracle(obs)
+    if why:
+        return why
     ids = [int(i) for i in case["defs"]]
     end = len(tr) - 1      # DoReturn / DoRaise is last
     for i in ids:
